@@ -43,6 +43,9 @@ CLAIM = dict(
          'argument objects reused over three calls interleaved with get_many / get / sample_tt, same Generator reused: '
          'same answer, arguments bit-identical, no shared memory); scales 2^-500..2^+1000 of the whole target and the '
          'degenerate shapes (d = 2, rho = 1, m = rho, mode size = m, mode size 1, cap = rho, cap = 1). '
+         'Magnitude with default arguments (correspondence and search): calls that omit e (and r), on targets rescaled so '
+         'that the smallest retained singular value of the sample blocks is 45..1e4 times the documented default '
+         'accuracy 1e-10, or large (to 1e100); the model is run with the documented defaults. '
          'Validated numerically only: that the hypotheses hold for random continuous cores and that binary64 rounding '
          'keeps the error small (search: relative error <= 1e-6, observed <= 3e-11 on 3000 cases).',
     note='The model is tied to svd.py / sample.py on every run: exact (Z) stream for sample_tt and for every block the '
@@ -299,10 +302,32 @@ def values(Y, I):
     return np.array(out)
 
 
+DEFAULT_E = 1e-10      # documented default accuracy of svd_incomplete (docstring / signature of the pinned tree)
+
+
+def block_sigma_min(y, n, rho, idx, idm):
+    """smallest of the rho-th singular values of the sample blocks the skeleton reduction can be applied to
+    (block 0 as n0 x suffixes, inner blocks as (n_k * prefixes) x suffixes): what an ABSOLUTE accuracy e is compared with"""
+    out = np.inf
+    for k in range(len(n) - 1):
+        B = np.asarray(y[idx[k]:idx[k + 1]], dtype=float)
+        B = B.reshape(int(n[k]), -1) if k == 0 else B.reshape(-1, int(idm[k]))
+        sv = np.linalg.svd(B, compute_uv=False)
+        if len(sv) >= rho:
+            out = min(out, float(sv[rho - 1]))
+    return out
+
+
+def pow2_scale_for(sig, target):
+    """power of two that brings sig to within a factor sqrt(2) of target"""
+    return 2.0 ** int(np.round(np.log2(target / sig)))
+
+
 def gen_case(rng, t, thorough):
     """one valid configuration: target of TT-rank rho, expected rank m >= rho, mode sizes >= m (mostly)"""
     fam = ['d2', 'rho1', 'm_eq_rho', 'n_eq_m', 'cap_eq_rho', 'cap_default', 'generic', 'generic', 'generic',
-           'cap_lt_rho', 'n_lt_m', 'noisy', 'int', 'scaled', 'scaled_tiny', 'cap1', 'all_min', 'n1'][t % 18]
+           'cap_lt_rho', 'n_lt_m', 'noisy', 'int', 'scaled', 'scaled_tiny', 'cap1', 'all_min', 'n1',
+           'default_magnitude', 'default_magnitude'][t % 20]
     d = 2 if fam in ('d2', 'all_min') else rng.randint(2, 4)
     rho = 1 if fam in ('rho1', 'cap1', 'all_min', 'n1') else rng.randint(1, 3)
     m = rho if fam in ('m_eq_rho', 'all_min', 'n1') else rho + rng.randint(0, 2)
@@ -325,10 +350,17 @@ def gen_case(rng, t, thorough):
     if fam == 'scaled':        # exact power-of-two rescaling of the whole target; e = 0 or rescaled with it
         ex = rng.choice([-500, -300, -100, -40, 100, 300, 600, 1000])
         e = rng.choice([0.0, 1e-10 * 2.0 ** ex]) if ex < 0 else rng.choice([0.0, 1e-10])
+    sig = None
+    if fam == 'default_magnitude':
+        # the caller relies on the DEFAULT accuracy (e omitted; r omitted or given) and the tensor is small / large:
+        # its smallest retained singular value sits 45 .. 1e4 times above the documented default e = 1e-10, or far above
+        e = DEFAULT_E
+        cap = rng.choice([rho, m, 1e12, 1e12])
+        sig = rng.choice([4.5e-9, 6e-9, 1e-8, 3e-8, 1e-7, 1e-6, 1e-3, 1e3, 1e9, 1e100])
     if fam == 'scaled_tiny':   # squares of the singular values underflow: model tie only (see ASSUMPTIONS)
         ex = rng.choice([-600, -800, -1000])
         e = rng.choice([0.0, 1e-10])
-    return dict(fam=fam, d=d, rho=rho, m=m, n=n, cap=cap, e=e, seed=rng.randrange(2 ** 31), ex=ex,
+    return dict(fam=fam, d=d, rho=rho, m=m, n=n, cap=cap, e=e, seed=rng.randrange(2 ** 31), ex=ex, sig=sig,
                 kind='int' if fam == 'int' else 'normal', noise=(1e-3 if fam == 'noisy' else 0.0))
 
 
@@ -338,6 +370,10 @@ def make_inputs(tn, cfg):
     if cfg.get('ex'):
         Y[0] = Y[0] * 2.0 ** cfg['ex']
     I, idx, idm = tn.sample_tt(cfg['n'], cfg['m'], seed=cfg['seed'])
+    if cfg.get('sig'):
+        s0 = block_sigma_min(values(Y, I), cfg['n'], cfg['rho'], np.asarray(idx), np.asarray(idm))
+        cfg['scale'] = pow2_scale_for(s0, cfg['sig'])
+        Y[0] = Y[0] * cfg['scale']
     y = values(Y, I)
     if cfg.get('noise'):
         y = y + cfg['noise'] * nprng.normal(size=y.shape)
@@ -508,7 +544,7 @@ def tolerant_stream(R, name, terms, cmp_results, inputs, chunk, dist, comparison
 def corr_float(R, ctx, tn):
     """binary64 instance of the model with the recorded svd / lstsq results replayed by call number"""
     rng = ctx['rng']
-    N = 288 if ctx['thorough'] else 72
+    N = 320 if ctx['thorough'] else 80
     terms, cmps, inputs = [], [], []
     dist = dict(family={}, d={}, rho={}, m={}, cap={}, forms={}, impl_raised=0, svd_calls=0, lstsq_calls=0,
                 contract_bad=[])
@@ -516,7 +552,13 @@ def corr_float(R, ctx, tn):
         cfg = gen_case(rng, t, ctx['thorough'])
         Y, I, y, idx, idm = make_inputs(tn, cfg)
         form = None
-        if t % 2 == 1:      # every second case is called in another documented argument form; the model sees the values
+        if cfg['fam'] == 'default_magnitude':   # e omitted (and r when it is the default): the model gets the documented defaults
+            kw = {} if cfg['cap'] == 1e12 and rng.random() < 0.7 else {'r': cfg['cap']}
+            form = ((I, y, idx, idm), kw, 'default-e' + ('' if kw else ' default-r'))
+            cfg['form'] = form[2]
+            for w in form[2].split():
+                dist['forms'][w] = dist['forms'].get(w, 0) + 1
+        elif t % 2 == 1:      # every second case is called in another documented argument form; the model sees the values
             form = arg_forms(rng, I, y, idx, idm, cfg['e'], cfg['cap'])
             cfg['form'] = form[2]
             for w in form[2].split():
@@ -1013,7 +1055,35 @@ def fam_scale(tn, fseed):
     return None
 
 
-FAMILIES = dict(forms=fam_forms, history=fam_history, scale=fam_scale)
+def fam_magnitude(tn, fseed):
+    """(4) magnitude with DEFAULT arguments: e omitted, r omitted or given; the target scaled (exact power of two) so that its
+    smallest retained singular value is 45 .. 1e4 times the documented default accuracy 1e-10, or large (up to 1e100)"""
+    rng = C.Rng(fseed)
+    for t in range(8):
+        d = rng.randint(2, 4)
+        rho = rng.randint(1, 3)
+        m = rho + rng.randint(0, 2)
+        n = [m + rng.randint(0, 3) for _ in range(d)]
+        cap = rng.choice([rho, m, None, None])
+        p = dict(n=n, rho=rho, m=m, cap=cap, seed=rng.randrange(2 ** 31), kind=rng.choice(['normal', 'uniform']))
+        p['sseed'] = p['seed']
+        sig = [4.5e-9, 6e-9, 1e-8, 3e-8, 1e-7, 1e-5, 1e3, 1e100][t] if fseed % 2 else \
+            rng.choice([4.5e-9, 6e-9, 1e-8, 3e-8, 1e-7, 1e-6, 1e-3, 1e9])
+        Y = rand_tt(np.random.default_rng(p['seed']), n, rho, p['kind'])
+        I, idx, idm = tn.sample_tt(n, m, seed=p['seed'])
+        s0 = block_sigma_min(values(Y, np.asarray(I)), n, rho, np.asarray(idx), np.asarray(idm))
+        if not (s0 > 1e-6):      # not a generic target (ill-conditioned sample blocks): outside the property
+            continue
+        p['scale'] = pow2_scale_for(s0, sig)
+        p['sigma_min'] = s0 * p['scale']
+        f = _oracle(tn, p)       # no 'e' key: the default accuracy is used; cap None: the default r as well
+        if f:
+            f['input'] = dict(family='magnitude', fseed=fseed, **f['input'])
+            return f
+    return None
+
+
+FAMILIES = dict(forms=fam_forms, history=fam_history, scale=fam_scale, magnitude=fam_magnitude)
 
 
 def search_cases(rng, deep):
@@ -1062,6 +1132,11 @@ def search(R, ctx, deep, hints):
                      kind=inp.get('kind', 'normal'), e=inp.get('e', 1e-10))
             if inp.get('ex'):
                 c['scale'] = 2.0 ** inp['ex']
+            if inp.get('fam') == 'default_magnitude':
+                c['scale'] = inp.get('scale')
+                del c['e']
+                if c['cap'] == 1e12:
+                    c['cap'] = None
             cand.append(c)
     cand += search_cases(rng, deep)
     for p in cand:
@@ -1076,7 +1151,7 @@ def search(R, ctx, deep, hints):
                          evaluations=n_eval, failures=len(fails), deep=deep))
     for fam, fn in FAMILIES.items():
         cnt, ff = 0, 0
-        for _ in range({'forms': 25, 'history': 25, 'scale': 30}[fam] * (5 if deep else 1)):
+        for _ in range({'forms': 25, 'history': 25, 'scale': 30, 'magnitude': 30}[fam] * (5 if deep else 1)):
             if len(fails) >= 5:
                 break
             fseed = rng.randrange(2 ** 31)
